@@ -20,6 +20,7 @@ import (
 	"sync"
 	"sync/atomic"
 	"time"
+	. "verif/harness/hlib"
 
 	"github.com/google/osv-scalibr/clients/datasource"
 )
@@ -339,8 +340,8 @@ func replayReqCache(steps []rcStep) string {
 }
 
 func init() {
-	register("reqcache", func(e *env) error {
-		return mapCases(e, func(idx int, raw []byte) (any, error) {
+	Register("reqcache", func(e *Env) error {
+		return MapCases(e, func(idx int, raw []byte) (any, error) {
 			var c struct {
 				Steps []rcStep `json:"steps"`
 			}
@@ -348,37 +349,37 @@ func init() {
 				return nil, err
 			}
 			var msg string
-			if p := safely(func() { msg = replayReqCache(c.Steps) }); p != "" {
+			if p := Safely(func() { msg = replayReqCache(c.Steps) }); p != "" {
 				msg = "panic: " + p
 			}
 			return map[string]any{"i": idx, "mismatch": msg}, nil
 		})
 	})
-	register("reqcache-trace", rcTraceCmd)
+	Register("reqcache-trace", rcTraceCmd)
 }
 
 // rcTraceCmd runs ungated stress executions and writes one ndjson trace (all runs concatenated, each
-// starting with a "reset" event) to e.out.
-func rcTraceCmd(e *env) error {
+// starting with a "reset" event) to e.Out.
+func rcTraceCmd(e *Env) error {
 	rcInstallHook()
-	seed, _ := strconv.ParseInt(e.args["seed"], 10, 64)
-	runs, _ := strconv.Atoi(e.args["runs"])
+	seed, _ := strconv.ParseInt(e.Args["seed"], 10, 64)
+	runs, _ := strconv.Atoi(e.Args["runs"])
 	if runs == 0 {
 		runs = 50
 	}
-	ng, _ := strconv.Atoi(e.args["g"])
+	ng, _ := strconv.Atoi(e.Args["g"])
 	if ng == 0 {
 		ng = 8
 	}
-	nk, _ := strconv.Atoi(e.args["k"])
+	nk, _ := strconv.Atoi(e.Args["k"])
 	if nk == 0 {
 		nk = 3
 	}
-	ncalls, _ := strconv.Atoi(e.args["calls"])
+	ncalls, _ := strconv.Atoi(e.Args["calls"])
 	if ncalls == 0 {
 		ncalls = 4
 	}
-	out, err := os.Create(e.out)
+	out, err := os.Create(e.Out)
 	if err != nil {
 		return err
 	}
